@@ -1,4 +1,5 @@
 import Memterm.Dump
+import Memterm.Props.Frame
 
 /-
   Driver side: executable comparisons between a model state and a dumped
@@ -37,11 +38,6 @@ def Dump.illFormed (d : Dump) : List String :=
 def cmpField {α} [BEq α] (name : String) (a b : α) : List String :=
   if a == b then [] else [name]
 
-instance : BEq Attr := ⟨fun a b => decide (a = b)⟩
-instance : BEq Cell := ⟨fun a b => decide (a = b)⟩
-instance : BEq Cursor := ⟨fun a b => decide (a = b)⟩
-instance : BEq CsId := ⟨fun a b => decide (a = b)⟩
-instance : BEq Savepoint := ⟨fun a b => decide (a = b)⟩
 instance : BEq Call := ⟨fun a b => decide (a = b)⟩
 
 /-- Compare a model state `m` with a dumped implementation state `d`.
